@@ -520,7 +520,25 @@ func c07(r *core.Run) {
 
 	// ---- P5 ----------------------------------------------------------------
 	usesToError := false
-	for _, c := range marshals {
+	// P5 also covers the event funnels: an event whose value cannot be marshalled is not published
+	marshalsP5 := append([]ssa.CallInstruction{}, marshals...)
+	for fn := range eventFunnels {
+		for _, c := range core.Calls(fn) {
+			if cal := c.Common().StaticCallee(); cal != nil && cal.String() == "encoding/json.Marshal" {
+				dup := false
+				for _, m := range marshals {
+					if m == c {
+						dup = true
+					}
+				}
+				if !dup {
+					marshalsP5 = append(marshalsP5, c)
+				}
+			}
+		}
+	}
+	sort.Slice(marshalsP5, func(i, j int) bool { return marshalsP5[i].Pos() < marshalsP5[j].Pos() })
+	for _, c := range marshalsP5 {
 		fn := c.Parent()
 		var data, errv ssa.Value
 		if c.Value().Referrers() != nil {
